@@ -21,9 +21,11 @@ func ruleC02(prog *Program, rep *Report) {
 	ruleSurrogates(prog, rep)
 	ruleBigLimitAgree(prog, rep)
 	ruleFillOnce(prog, rep)
-	ruleArmTwinsAll(prog, rep, false)                                                                                // counters and cursors the exploration keeps abstract
-	ruleBOM(prog, rep)                                                                                               // bytes dropped before the dispatch loop sees them change the values
-	ruleCursorAdvance(prog, rep)                                                                                     // with Reuse, a recycled map handed out twice makes two objects of a document one value
+	ruleArmTwinsAll(prog, rep, false)                                                                    // counters and cursors the exploration keeps abstract
+	ruleBOM(prog, rep)                                                                                   // bytes dropped before the dispatch loop sees them change the values
+	ruleCursorAdvance(prog, rep)                                                                         // with Reuse, a recycled map handed out twice makes two objects of a document one value
+	ruleEntryParity(prog, rep, "oj.Parser", "gen.Parser", "sen.Parser", "oj.Tokenizer", "sen.Tokenizer") // a number conversion mode one entry does not reset changes what later parses return
+	ruleArgParity(prog, rep, "oj.Parser", "gen.Parser", "sen.Parser", "oj.Tokenizer", "sen.Tokenizer")
 	ruleRestore(prog, rep)                                                                                           // a number-conversion option overwritten for one call (Unmarshal forces floats) and not put back changes what later parses return
 	rulePoolPut(prog, rep, "oj.Parser", "gen.Parser", "sen.Parser", "oj.Tokenizer", "oj.Validator", "sen.Tokenizer") // a parser put back before its last use mixes two callers' documents
 	rep.Rules = append(rep.Rules, "A-events: value/token events of the four JSON front-ends agree with the reference at every byte (kind of each value: null/true/false/string/number/container, key vs value) - see C03")
